@@ -14,11 +14,11 @@ cd $wt
 git checkout -q -- src 2>/dev/null; git stash list | grep -q . && git stash drop -q
 mkdir -p tests; cp SEED/seeded_demo.rs tests/seeded_demo.rs
 echo "== without change: demo must pass"
-cargo test --offline --test seeded_demo 2>&1 | grep -E "^test result|^error(\[|:)" | head -3 | tee /tmp/seed_$tag.without
+cargo test --offline $SEED_FEATURES --test seeded_demo 2>&1 | grep -E "^test result|^error(\[|:)" | head -3 | tee /tmp/seed_$tag.without
 git apply SEED/patch.diff || { echo "patch does not apply"; exit 2; }
 echo "== with change: lib tests must pass, demo must fail"
 cargo test --offline --lib 2>&1 | grep -E "^test result|error(\[|:)" | head -3 | tee /tmp/seed_$tag.lib
-cargo test --offline --test seeded_demo 2>&1 | grep -E "^test result|^error(\[|:)" | head -3 | tee /tmp/seed_$tag.with
+cargo test --offline $SEED_FEATURES --test seeded_demo 2>&1 | grep -E "^test result|^error(\[|:)" | head -3 | tee /tmp/seed_$tag.with
 git checkout -q -- src
 ok=1
 grep -q "test result: ok" /tmp/seed_$tag.without || ok=0
